@@ -149,7 +149,94 @@ func c01NewPool(r *vhRng) *c02Pool {
 	return p
 }
 
+// c01GenNested: a key that is a strict prefix of two or more other keys (a branch with its own
+// value) gets values on both sides of the V1 hashing threshold or the empty value, is overwritten,
+// and then the keys around it are deleted one by one (branch -> leaf, merges, re-insertions):
+// the header variant must follow the value that is stored at that moment.
+func c01GenNested(r *vhRng) string {
+	alpha := c02Alphabets[r.Intn(len(c02Alphabets))]
+	base := c02Key(r, alpha, 3)
+	if r.Chance(1, 4) {
+		base = append(make([]byte, c01StemLens[r.Intn(len(c01StemLens))]), base...)
+	}
+	nkids := 2 + r.Intn(3)
+	kids := make([][]byte, 0, nkids)
+	for len(kids) < nkids {
+		k := append(append([]byte{}, base...), alpha[r.Intn(len(alpha))])
+		k = append(k, c02Key(r, alpha, 2)...)
+		kids = append(kids, k)
+	}
+	big := func() []byte {
+		n := r.Pick(33, 33, 40, 200)
+		v := make([]byte, n)
+		b := byte(r.Intn(256))
+		for i := range v {
+			v[i] = b + byte(i)
+		}
+		return v
+	}
+	small := func() []byte {
+		n := r.Pick(0, 0, 1, 31, 32)
+		v := make([]byte, n)
+		for i := range v {
+			v[i] = byte(7 + i)
+		}
+		return v
+	}
+	val := func() []byte {
+		if r.Chance(3, 5) {
+			return big()
+		}
+		return small()
+	}
+	var ops []string
+	put := func(k, v []byte) { ops = append(ops, "put "+vhHex(k)+" "+vhHex(v)) }
+	del := func(k []byte) { ops = append(ops, "del "+vhHex(k)) }
+	// build in a random order
+	order := r.Intn(3)
+	if order == 0 {
+		put(base, val())
+	}
+	for i, k := range kids {
+		put(k, val())
+		if order == 1 && i == 0 {
+			put(base, val())
+		}
+	}
+	if order == 2 {
+		put(base, val())
+	}
+	// overwrite across the threshold, then take the neighbourhood apart
+	n := 2 + r.Intn(6)
+	for i := 0; i < n; i++ {
+		switch r.Intn(8) {
+		case 0, 1:
+			put(base, val())
+		case 2:
+			if len(base) > 0 {
+				del(base)
+			} else {
+				put(base, small())
+			}
+		case 3, 4, 5:
+			del(kids[r.Intn(len(kids))])
+		case 6:
+			put(kids[r.Intn(len(kids))], val())
+		default:
+			ops = append(ops, fmt.Sprintf("clrl %s %d", vhHex(kids[r.Intn(len(kids))]), 1+r.Intn(2)))
+		}
+	}
+	ver := "1"
+	if r.Chance(1, 5) {
+		ver = "0"
+	}
+	return ver + "|" + strings.Join(ops, ";")
+}
+
 func c01Gen(r *vhRng) string {
+	if r.Chance(2, 5) {
+		return c01GenNested(r)
+	}
 	p := c01NewPool(r)
 	if r.Chance(1, 4) {
 		p = c02NewPool(r)
